@@ -347,8 +347,9 @@ struct rec_visitor
     std::vector<vevent>* log;
     int count = 0;
     bool stopped = false;
-    rec_visitor(char* b, sbepp::cursor<Byte>* t, int s, std::vector<vevent>* l)
-        : base(b), top(t), stop(s), log(l)
+    int chunk = 0; // 0: visit_children(group); k > 0: cursor_subrange chunks of k
+    rec_visitor(char* b, sbepp::cursor<Byte>* t, int s, std::vector<vevent>* l, int ch = 0)
+        : base(b), top(t), stop(s), log(l), chunk(ch)
     {
     }
     std::vector<std::string> comp;         // composite key prefix stack
@@ -377,7 +378,33 @@ struct rec_visitor
             return true;
         entry_idx.push_back(0);
         group_key.push_back(key);
-        sbepp::visit_children(g, c, *this);
+        if(chunk == 0)
+            sbepp::visit_children(g, c, *this);
+        else
+        {
+            // the same entries through consecutive cursor sub-ranges
+            using size_type = typename T::size_type;
+            const size_type n = g.size();
+            for(size_type pos = 0; pos < n && !stopped; pos = static_cast<size_type>(pos + chunk))
+            {
+                // chunk 1: always the (pos, count) form; chunk 2: the last chunk
+                // through the (pos) form
+                const bool last_chunk = static_cast<std::uint64_t>(pos) + chunk >= n;
+                if(last_chunk && chunk != 1)
+                {
+                    for(auto e : g.cursor_subrange(c, pos))
+                        if(on_entry(e, c))
+                            break;
+                }
+                else
+                {
+                    for(auto e : g.cursor_subrange(
+                            c, pos, last_chunk ? static_cast<size_type>(n - pos) : static_cast<size_type>(chunk)))
+                        if(on_entry(e, c))
+                            break;
+                }
+            }
+        }
         entry_idx.pop_back();
         group_key.pop_back();
         return stopped;
@@ -457,7 +484,7 @@ struct level_struct
 struct visit_ops
 {
     // returns the cursor offset (relative to the message start) afterwards
-    std::function<std::ptrdiff_t(char*, std::size_t, int, std::vector<vevent>&)> run;
+    std::function<std::ptrdiff_t(char*, std::size_t, int, std::vector<vevent>&, int)> run;
 };
 
 struct registry
@@ -609,11 +636,13 @@ void assign_data(D d, const bytes& b)
         ::vh::visit_ops{[](char* p,                                           \
                            std::size_t n,                                     \
                            int stop,                                          \
-                           std::vector<::vh::vevent>& log) -> std::ptrdiff_t  \
+                           std::vector<::vh::vevent>& log,                    \
+                           int chunk) -> std::ptrdiff_t                       \
                         {                                                     \
                             M m{p, n};                                        \
                             auto c = ::sbepp::init_cursor(m);                 \
-                            ::vh::rec_visitor<VH_BYTE> v{p, &c, stop, &log};  \
+                            ::vh::rec_visitor<VH_BYTE> v{                     \
+                                p, &c, stop, &log, chunk};                    \
                             ::sbepp::visit_children(m, c, v);                 \
                             return c.pointer() - p;                           \
                         }})
